@@ -123,7 +123,18 @@ class C16Phh(Monitor):
             if hh2 != hh:
                 import dataclasses
                 diff = [f.name for f in dataclasses.fields(hh) if getattr(hh, f.name) != getattr(hh2, f.name)]
-                self.report('roundtrip', 'loads_differs:' + ','.join(diff[:3]),
+
+                def strings2(x):
+                    if isinstance(x, str):
+                        yield x
+                    elif isinstance(x, dict):
+                        for v_ in x.values():
+                            yield from strings2(v_)
+                    elif isinstance(x, list):
+                        for v_ in x:
+                            yield from strings2(v_)
+                triple = any("'''" in t for t in strings2([kwargs, udf]))
+                self.report('roundtrip', 'loads_differs:' + ('triple_apostrophe' if triple else ','.join(diff[:3])),
                             f'loads(dumps(h)) differs from h in {diff}: ' + '; '.join(f'{n}: {getattr(hh, n)!r} -> {getattr(hh2, n)!r}' for n in diff[:3]))
             if text2 != text:
                 self.report('roundtrip', 'dumps_not_idempotent', f'saving the loaded history gives a different text')
